@@ -137,7 +137,7 @@ domain. -/
 theorem c20_accepted_iff_decimal_u32 (p : Int) (c : String) (hp : p = PROTOCOL_CCTP ∨ p = PROTOCOL_HYPERLANE)
     (hlen : 10 ≤ Gen.maxCounterpartyIDLength) :
     validateCounterpartyID c p = true ↔ ∃ n, n < 2 ^ 32 ∧ c = natToDec n := by
-  have hsel : validateCounterpartyID c p = (c != "" && !hasNul c && decide (byteLen c ≤ Gen.maxCounterpartyIDLength) && isCanonicalU32 c) := by
+  have hsel : validateCounterpartyID c p = (c != "" && !hasNul c && allAscii c && decide (byteLen c ≤ Gen.maxCounterpartyIDLength) && isCanonicalU32 c) := by
     rcases hp with rfl | rfl <;> simp [validateCounterpartyID, PROTOCOL_CCTP, PROTOCOL_HYPERLANE, PROTOCOL_IBC]
   rw [hsel]
   constructor
@@ -146,7 +146,7 @@ theorem c20_accepted_iff_decimal_u32 (p : Int) (c : String) (hp : p = PROTOCOL_C
     exact (isCanonicalU32_iff c).mp h.2
   · rintro ⟨n, hn, rfl⟩
     simp only [Bool.and_eq_true, bne_iff_ne, ne_eq, decide_eq_true_eq]
-    refine ⟨⟨⟨?_, ?_⟩, ?_⟩, (isCanonicalU32_iff _).mpr ⟨n, hn, rfl⟩⟩
+    refine ⟨⟨⟨⟨?_, ?_⟩, ?_⟩, ?_⟩, (isCanonicalU32_iff _).mpr ⟨n, hn, rfl⟩⟩
     · intro e
       have := congrArg String.toList e
       simp only [natToDec, String.toList_ofList, String.toList_empty] at this
@@ -159,6 +159,18 @@ theorem c20_accepted_iff_decimal_u32 (p : Int) (c : String) (hp : p = PROTOCOL_C
       have := hd ch hmem
       rw [e] at this
       exact absurd this (by decide)
+    · -- digits are ASCII
+      simp only [allAscii, natToDec, String.toList_ofList, List.all_eq_true, decide_eq_true_eq]
+      intro ch hmem
+      have hd := natDigits_all n
+      rw [List.all_eq_true] at hd
+      have hdg := hd ch hmem
+      simp only [isDigit, Bool.and_eq_true, decide_eq_true_eq] at hdg
+      have h9 : ch.val ≤ ('9' : Char).val := hdg.2
+      have h9' := UInt32.le_iff_toNat_le.mp h9
+      have e9 : ('9' : Char).val.toNat = 57 := by decide
+      show ch.val.toNat < 128
+      omega
     · rw [byteLen_natToDec]
       have := natDigits_length_le n 10 (by decide) (by omega)
       omega
